@@ -1,8 +1,8 @@
 (* Extraction of the C07 model (C01 file model + merge). ExtrOcamlBasic only. *)
-Require Import Pk.IndexFormat Pk.Merge.
+Require Import Pk.IndexFormat Pk.IndexFormatPop Pk.Merge.
 Require Extraction.
 Require Import ExtrOcamlBasic.
 Extraction "c07_model.ml"
-  new_writer add_streams finalize_reader new_reader_gen finalize encode_file decode_file
+  new_writer add_streams add_streams_pop finalize_reader new_reader_gen finalize encode_file decode_file
   all_streams stream_by_id stream_by_source observe r_ids r_min r_max assoc
   add_index merge_files visible.
